@@ -22,6 +22,7 @@ import (
 	"runtime"
 	"strconv"
 	"sync"
+	"sync/atomic"
 	"testing"
 	"testing/synctest"
 	"time"
@@ -61,6 +62,11 @@ func pick(xs []int, i int, def int) int {
 	return xs[i]
 }
 
+// abnormalEnds counts the scripted runs that did not end by themselves (Horizon, Runaway, a bubble left with blocked
+// goroutines).  Each of them is a rejected trace; once there are dozens the verdict is beyond doubt and the remaining scripts
+// are skipped, so that a defect which makes attacks hang does not make the driver take for ever.
+var abnormalEnds atomic.Int64
+
 type scriptPacer struct {
 	tr    *Tracer
 	sc    *Script
@@ -77,6 +83,7 @@ func (p *scriptPacer) Pace(elapsed time.Duration, hits uint64) (time.Duration, b
 		k := p.calls
 		if k == p.cap {
 			// virtual time is not advancing: the loop consults the pacer without ever sleeping
+			abnormalEnds.Add(1)
 			p.tr.EmitLocked("Runaway", KV{"t": p.now(), "calls": k})
 		}
 		if k >= p.cap {
@@ -211,6 +218,7 @@ func runScript(t *testing.T, tr *Tracer, sc *Script) {
 		// the bubble panics ("deadlock: all goroutines in bubble are blocked") when
 		// the attack left goroutines behind; that is a trace fact, not a crash
 		if r := recover(); r != nil {
+			abnormalEnds.Add(1)
 			tr.Emit("BubblePanic", KV{"id": sc.ID, "value": trunc(toStr(r), 300)})
 		}
 	}()
@@ -313,6 +321,7 @@ func runScript(t *testing.T, tr *Tracer, sc *Script) {
 					continue
 				}
 				// the attack had every reason to end and did not: unblock it so the bubble can be left
+				abnormalEnds.Add(1)
 				tr.Emit("Horizon", KV{"t": now()})
 				atk.Stop()
 				go func() {
